@@ -33,6 +33,12 @@ def amplify(cx, name, c, results, v, per_case=24, max_cases=8):
     rej = [(rid, step) for rid, step, _ in v["rejected"] if step > 0]
     if not rej:
         return
+    # keep what was recorded around the first rejected step for diagnosis
+    for rid, step in rej[:2]:
+        r = byid[rid]
+        cx.notes.append({"nonconforming_case": rid, "step": step, "config": c,
+                         "events_before": [{"p": e["p"], "a": e["a"], "pcs": {k: x for k, x in e["pcs"].items() if x != "none"}, "st": e["st"], "rets": e["rets"]}
+                                           for e in r["events"][max(0, step - 4):step]]})
     cx.rnd.shuffle(rej)
     rej = rej[:max_cases]
     cases = []
